@@ -119,6 +119,28 @@ HANDWRITTEN = [
 
 
 
+def shared_map_histories():
+    """one alpha map attached to two images at once: every order in which the three references are dropped (holders
+       destroyed while attached, the map kept alive by the attachments alone, or outliving them), with and without a
+       detach first, destroy callbacks on all three, a use in between"""
+    import itertools
+    out = []
+    for kind_m in (1, 2):
+        for order in itertools.permutations([1, 2, 3]):
+            for detach in (0, 1, 2):
+                h = ["create 1 0 1 0", "create 2 0 %d 1" % (1 + detach % 2), "create 3 0 %d 2" % kind_m,
+                     "destroyfn 1 0 1 0", "destroyfn 2 0 2 0", "destroyfn 3 0 1 0", "alpha 1 3 0 0", "alpha 2 3 0 1", "use 1 0 0 0"]
+                if detach:
+                    h.append("alpha %d 0 0 0" % detach)
+                for k, i in enumerate(order):
+                    h.append("unref %d 0 0 0" % i)
+                    if k == 0:
+                        alive = [j for j in (1, 2) if j != i]
+                        h.append("use %d 0 0 0" % alive[0])
+                out.append(h)
+    return out
+
+
 def setter_pair_histories():
     """Owned buffers are exchanged by the setters: every ordered pair, and every triple with a detour over "none", of the
        concrete presentations of a value (NULL / given, each kernel, a parameter block of length 0, each matrix, each clip
@@ -229,9 +251,12 @@ def run(prop, args):
     sp_h = setter_pair_histories()
     for k, h in enumerate(sp_h):
         execs.append(["reset pair%d" % k] + h + ["end"])
+    sm_h = shared_map_histories()
+    for k, h in enumerate(sm_h):
+        execs.append(["reset smap%d" % k] + h + ["end"])
     chk.extra["executions"] = len(execs)
     chk.extra["tlc_generated_behaviours"] = {"breadth_first": len(bfs), "generate_depth25": len(rnd),
-                                             "handwritten": len(HANDWRITTEN), "setter_value_pairs": len(sp_h)}
+                                             "handwritten": len(HANDWRITTEN), "setter_value_pairs": len(sp_h), "shared_alpha_map_histories": len(sm_h)}
 
     # 3. execute on the real library (ASan build of /repo's working tree)
     nb = 8 if quick else 12
